@@ -53,7 +53,8 @@ Proof.
       unfold resolve_sym in Hb1. destruct (ra_sym a) as [n|n].
       * destruct (sm_get n terms) as [t|] eqn:Et.
         -- inversion Hb1; subst. left. eapply HT. eapply sm_get_In; eauto.
-        -- destruct (sm_get n nts) as [nt|] eqn:En; [|discriminate].
+        -- destruct (existsb (String.eqb n) ["AUG"; "AUGL"]%string); [discriminate|].
+           destruct (sm_get n nts) as [nt|] eqn:En; [|discriminate].
            destruct ((rl =? 1) && (nd_idx nt =? pn)); [discriminate|]. inversion Hb1; subst.
            right. exists n, nt. split; [eapply sm_get_In; eauto|reflexivity].
       * destruct (sm_get n terms) as [t|] eqn:Et; [|discriminate].
